@@ -1,5 +1,6 @@
 import Driver.C06Mon
 import OidcModel.Generated.IssueC06
+import OidcModel.Generated.IssueC06Key
 open Kv Drv
 
 /-
@@ -64,9 +65,30 @@ def modelLine (l : Line) : String × String :=
   let obsAT := if bool l "o.jwtat" && flow != "jwt-bearer" then str l "j.priv" else "-"
   (idPart ++ "|priv=" ++ atPart, obsID ++ "|priv=" ++ obsAT)
 
+/-- the REGENERATED signing path (GenC06K.SignerFromKey, GenC06K.Sign) on the signing key the reference storage returns at this
+    issuance: which key pair signs, and which `alg` / `kid` the header names - as `alg/kid/keyNo` -/
+def signerLine (l : Line) : String :=
+  let alg := str l "k.alg"
+  let kty : KeyType := if alg == "EdDSA" then .okp else if Go.hasPrefix alg "ES" then .ec else .rsa
+  let key : IssKSigningKey := { SignatureAlgorithm := alg, Key := { keyNo := (int l "k.cur").toNat, kty := kty }, ID := str l "k.kid" }
+  match GenC06K.SignerFromKey 0 key with
+  | .error e => "error:" ++ e
+  | .ok signer =>
+    match GenC06K.Sign 0 { bytesOf := fun _ => 0 } {} signer with
+    | .ok { jws := some { Signatures := [sg], .. }, .. } => s!"{sg.Header.Algorithm}/{sg.Header.KeyID}/{(sg.signer.map toString).getD "-"}"
+    | _ => "error:sign"
+
 def stepModel (l : Line) : String :=
   if str l "obs" != "tokens" then step l else
   let (m, o) := modelLine l
-  s!"case={str l "case"} class={str l "flow"}:{str l "alg"}:{str l "obs"}:{if bool l "o.jwtat" then "jwt" else "opaque"}:{str l "restrict"} model={esc m} observed={esc o} monitor={showMon (monitorLine l)} agree={if m == o then 1 else 0}"
+  -- every issued JWT is signed as the regenerated signing path signs with the CURRENT key (lines of older streams carry no key)
+  let (m, o) :=
+    if has l "k.cur" then
+      let sg := signerLine l
+      (m ++ (if bool l "o.idtoken" then "|idsig=" ++ sg else "") ++ (if bool l "o.jwtat" then "|atsig=" ++ sg else ""),
+       o ++ (if bool l "o.idtoken" then s!"|idsig={str l "o.idalg"}/{str l "o.idkid"}/{int l "o.idsigner"}" else "")
+         ++ (if bool l "o.jwtat" then s!"|atsig={str l "o.atalg"}/{str l "o.atkid"}/{int l "o.atsigner"}" else ""))
+    else (m, o)
+  s!"case={str l "case"} class={classOf l} model={esc m} observed={esc o} monitor={showMon (monitorLine l)} agree={if m == o then 1 else 0}"
 
 end Drv.C06
